@@ -206,6 +206,8 @@ theorem reported_uuid_is_stored (σ : DbModel) (db : Database) (tx : Txn) (op : 
     · rename_i ts _
       split at h
       · rename_i mu hmu
+        split at h
+        · cases h
         cases h
         refine ⟨rfl, mu, rfl, ?_⟩
         intro m hm
